@@ -111,6 +111,11 @@ TRACE_FUNCS = [
 ]
 
 
+# functions whose switch points are single bytecode instructions in schedules with "on": "op"
+OPCODE_FUNCS = ["Scheduler.schedule", "Scheduler.fast_schedule", "Scheduler.run", "ScheduleTask.run", "SelectHub.idle",
+                "SelectHub.break_idle", "CallLaterTask.callLater", "Scheduler.callLater"]
+
+
 def _resolve(R, dotted):
   o = R
   for part in dotted.split("."):
@@ -150,8 +155,8 @@ def setup():
     m.trace[_resolve(R, name)] = None
   m.trace[P.POXCore.call_later] = None
   m.trace[P.POXCore.raiseLater] = None
+  m.opcode = [_resolve(R, n) for n in OPCODE_FUNCS]
   m.windows = {}
-  m.window_names = {}
   m.missing = []
   for name, pats in WINDOW_PATTERNS:
     f = _resolve(R, name)
@@ -595,6 +600,7 @@ def _execute(case):
 
   ds = D.DetSched(chooser=chooser, trace=m.trace, windows=m.windows, base=int(sc.get("base", 0)),
                   decide_on="windows" if sc.get("on") == "win" else "all", observer=observer, on_abort=on_abort,
+                  opcode=m.opcode if sc.get("on") == "op" else (),
                   max_vtime_span=60.0, watchdog_s=60.0)
   r = _SCN[scn](case["p"], ds, obs, m)
   before, bodies, snap, judge = r[0], r[1], r[2], r[3]
@@ -681,6 +687,8 @@ def _execute(case):
   if nondefault:
     out.label("cfg:nondefault")
   out.label("scn:" + scn, "hub:" + ("threaded" if hub else "inline"), "sched:" + ("dev" if "devs" in sc else "random"))
+  if sc.get("on") == "op":
+    out.label("sched:opcode-level")
   out.label("preemptions:%d" % min(len(res.preemptions), 4), "window-preemptions:%d" % min(len(wp), 4))
   for d in wp:
     out.label("pre@" + d["site"].split(":")[0])
